@@ -223,7 +223,7 @@ def judgeStep (st : St) : List String → St × String
       let now := st.now + g * sec
       let out : Outcome := if ret then .accepted else if frec then .rejected else .spaced
       let m := st.mons u
-      let r := monStep m now out
+      let r := Spec.monStep m now out
       let reused : Bool := match stp.toInt?, st.acc u with
         | some k, some l => ret && decide (k ≤ l)
         | _, _ => false
